@@ -93,7 +93,9 @@ Proof.
       { intros a Hor. split; [destruct Hor as [->|[->| ->]]; reflexivity|]. exists ci, h0. auto. }
       destruct (could_be_ipv8 payload && negb (is_e2e (c_ctype ci))).
       * destruct (bytes_eqb (n_prefix nd) (slice payload None (Some 22))).
-        { intros H; injection H as <- <-. intros a [<-|[]]. right. apply W. auto. }
+        { destruct (idx payload 22) as [m|]; cbn [bind]; [|discriminate].
+          destruct (existsb (Z.eqb m) (n_data_ids nd)); intros H; injection H as <- <-; intros a Ha; [|destruct Ha].
+          destruct Ha as [<-|[]]. right. apply W. auto. }
         destruct (n_tunnel_ep nd); intros H; injection H as <- <-; intros a Ha; [|destruct Ha].
         destruct Ha as [<-|[]]. right. apply W. auto.
       * intros H; injection H as <- <-. intros a [<-|[]]. right. apply W. auto.
@@ -272,6 +274,19 @@ Proof.
     destruct (I4 (eq_sym I2) es He) as (k & Hk & Hd2).
     destruct (A k FORWARD (cl_msg c) (m0 :: rest) Hd2) as [n Hn].
     exists c, es, k, n, (m0 :: rest). repeat split; auto. apply has_false_assoc. exact Hr.
+Qed.
+
+(* whatever the dispatcher is given (also a datagram re-injected from a data message, whose source address is the
+   OUTSIDE sender): the consumer is reached only through the data handler, for one of our circuits whose first hop
+   has exactly that source address *)
+Lemma dispatcher_consumer_l (nd : node) src data cid rnd ns nd' acts a :
+  on_packet_from_circuit enc nd src data cid rnd ns = Ok (nd', acts) -> In a acts -> is_consumer a = true ->
+  exists cid' ci h0, assoc cid' (n_circuits nd) = Some ci /\ circuit_hop ci = Ok h0 /\ addr_eqb src (h_addr h0) = true.
+Proof.
+  intros H Hin Hk. destruct (pfc_inv nd src data cid rnd ns nd' acts H a Hin (or_intror Hk)) as [_ [nd2 Hd]].
+  destruct (on_data_inv nd src data nd2 acts Hd) as (cid' & dest & origin & payload & o & _ & Hall).
+  destruct (Hall a Hin) as [[-> _] | [_ (ci & h0 & Hc & Hh & Hs & _)]]; [discriminate Hk|].
+  exists cid', ci, h0. auto.
 Qed.
 
 (* origin_binding: what reaches the originator's consumer came in a non-plaintext cell under the id of one of
